@@ -69,6 +69,11 @@ func runLife(e *Env) {
 	// has - still means one attempt per connection)
 	cfg.ReconnectionPolicy = &gocql.ConstantReconnectionPolicy{MaxRetries: []int{2, 1, 0, 4}[tp.Next(4)], Interval: 100 * time.Millisecond}
 	cfg.MaxWaitSchemaAgreement = 2 * time.Second
+	// gocql.TimeoutLimit (package level, default 0 = off): a connection that has seen more
+	// than this many request timeouts is closed by the driver - and replaced like any other
+	gocql.TimeoutLimit = int64([]int{0, 0, 1, 2}[tp.Next(4)])
+	defer func() { gocql.TimeoutLimit = 0 }()
+	e.Note("timeoutLimit", gocql.TimeoutLimit)
 	withRetry := tp.Chance(1, 2)
 	if withRetry {
 		// the queries of this scenario are not marked idempotent: whatever happens to
